@@ -221,6 +221,11 @@ func (t *Tasks) UnmarshalYAML(node *yaml.Node) error {
 			keyNode := node.Content[i]
 			valueNode := node.Content[i+1]
 
+			// A task must not silently replace an earlier one
+			if err := duplicateKeyError(node, i); err != nil {
+				return err
+			}
+
 			// Decode the value node into a Task struct
 			var v Task
 			if err := valueNode.Decode(&v); err != nil {
@@ -241,6 +246,24 @@ func (t *Tasks) UnmarshalYAML(node *yaml.Node) error {
 	}
 
 	return errors.NewTaskfileDecodeError(nil, node).WithTypeMessage("tasks")
+}
+
+// duplicateKeyError returns a decode error if the key at index i of the
+// mapping node is equal to the key of an earlier pair. yaml.v3 refuses
+// duplicate keys in the mappings it decodes itself; the ordered maps (tasks,
+// includes, vars) are decoded by hand, so the check is repeated here: a second
+// definition must not silently replace the first one.
+func duplicateKeyError(node *yaml.Node, i int) error {
+	keyNode := node.Content[i]
+	for j := 0; j < i; j += 2 {
+		earlier := node.Content[j]
+		if earlier.Kind == keyNode.Kind && earlier.Value == keyNode.Value {
+			return errors.NewTaskfileDecodeError(nil, keyNode).WithMessage(
+				"mapping key %q already defined at line %d", keyNode.Value, earlier.Line,
+			)
+		}
+	}
+	return nil
 }
 
 // taskRefWithNamespace adds the namespace to a reference to another task
